@@ -167,7 +167,8 @@ def do_check(mod, pid, modname, seed, args):
                     print(f"KNOWN-FINDING: property={pid} {fkey} -- {kf['what']} (seen as {key})")
                 continue
             reported.add(fkey)
-            path = os.path.join(ROOT, "replays", f"{pid}-{seed}-{index}.json")
+            kh = hashlib.sha256(fkey.encode()).hexdigest()[:6]
+            path = os.path.join(ROOT, "replays", f"{pid}-{seed}-{index}-{kh}.json")
             os.makedirs(os.path.dirname(path), exist_ok=True)
             with open(path, "w") as f:
                 json.dump({"property": pid, "seed": seed, "index": index, "tier": tier, "violation": sviol,
